@@ -76,14 +76,14 @@ ARITH_TRUSTED = [
     "floats as reals (A1); a//b is floor of the real quotient",
 ]
 PROPS["C03"] = {
-    "tasks": lambda tier: VP(UDB + ":UnitDatabase.Sum", 3) + VP(UDB + ":UnitDatabase.Subtract", 3) + VP(OPS_KEY, 10) + [("lemma_arith", {})],
+    "tasks": lambda tier: VP(UDB + ":UnitDatabase.Sum", 3) + VP(UDB + ":UnitDatabase.Subtract", 3) + VP(OPS_KEY, 10) + VP("barril.units._array:Array._DoOperation#operators", 12) + [("lemma_arith", {})],
     "level": "proof",
     "level_text": "UnitDatabase.Sum/Subtract and the Scalar operators + and - (through Python's operator dispatch) are verified against a functional contract for operand quantities that are symbolic in every category, unit, exponent (unbounded integers), caption and value: the result has the left operand's categories and exponents with the matched units, the value is v1 +/- v2 re-expressed by the conversions unit -> matched unit, different dimensions raise. A log-domain lemma over the contract shows the result's base magnitude is the sum/difference of the operands' (hence a+b = b+a and (a+b)-b = a physically). Per shape (number of composing entries per operand: 0, 1, 2; thorough adds more pairs) this is a complete proof; across shapes it is a bound. The case 're-expressed entry with exponent other than 1' is a recorded known finding.",
-    "level_note": "shape-bounded: operands with at most 2 composing entries (quick: 9 shape pairs, thorough: 14); preconditions N1 (a quantity-type name that is also a category names itself) and normalised operands; Array (element by element) is covered in C10; floats are reals",
+    "level_note": "shape-bounded: operands with at most 2 composing entries (quick: 9 shape pairs, thorough: 14); preconditions N1 (a quantity-type name that is also a category names itself) and normalised operands; Arrays (element by element, any length and container kind) through the Array operator contract shared with C10; floats are reals",
     "trusted": ARITH_TRUSTED,
 }
 PROPS["C04"] = {
-    "tasks": lambda tier: VP(UDB + ":UnitDatabase.Multiply", 4) + VP(UDB + ":UnitDatabase.Divide", 5) + VP(UDB + ":UnitDatabase.FloorDivide", 5) + VP(OPS_KEY, 10) + [("lemma_arith", {})],
+    "tasks": lambda tier: VP(UDB + ":UnitDatabase.Multiply", 4) + VP(UDB + ":UnitDatabase.Divide", 5) + VP(UDB + ":UnitDatabase.FloorDivide", 5) + VP(OPS_KEY, 10) + VP("barril.units._array:Array._DoOperation#operators", 12) + [("lemma_arith", {})],
     "level": "proof",
     "level_text": "UnitDatabase.Multiply/Divide/FloorDivide and the Scalar operators *, /, // are verified against a functional contract for symbolic operand quantities (all names, units, unbounded integer exponents and values symbolic): the result's composing map is exactly the merged map (exponents added/subtracted per category, entries with zero exponent or zero joined exponent dropped), its exponent per quantity type is the sum/difference of the operands', no zero exponent survives, the value is v1 op v2 after matching; division by a zero amount raises. Log-domain lemmas over the contract give 'base magnitudes multiply/divide' and the dimension rule for every shape up to (2,2) (thorough (3,3)). The case 're-expressed entry with exponent other than 1' is a recorded known finding. a**n is not yet under contract.",
     "level_note": "shape-bounded as C03; preconditions N1 and normalised operands; floats are reals; a//b = floor of the real quotient",
